@@ -14,12 +14,12 @@ PROPS = {
  'C03': dict(level='proof', sections=[], result_ops=['begin', 'end'], monitors=['lifecycle'], halts=True),
  'C04': dict(level='proof', sections=['vpn/node/10', 'vpn/node/11', 'vpn/subscription/10', 'vpn/subscription/11', 'vpn/subscription/30', 'vpn/subscription/31',
                                       'vpn/session/10', 'vpn/session/11', 'events'], result_ops=['begin', 'end', 'tx:subCancel', 'tx:sessEnd', 'tx:nodeStatus'],
-             monitors=['deadlinesFuture', 'lifecycle']),
+             monitors=['deadlinesFuture', 'statuses']),
  'C05': dict(level='proof', sections=['bank', 'vpn/subscription/10', 'vpn/subscription/30', 'vpn/deposit', 'events'], result_ops=['tx:nodeSubscribe', 'tx:planSubscribe'],
              monitors=['escrowSplit'], uses_generated=True),
  'C06': dict(level='proof', sections=['vpn/subscription/20', 'vpn/subscription/12'], result_ops=['tx:subAllocate', 'tx:sessStart'], monitors=['allocBounds', 'quotaConserved']),
  'C07': dict(level='proof', sections=None, result_ops=['*'], monitors=[]),
- 'C08': dict(level='proof', sections=[], result_ops=['tx'], monitors=[]),
+ 'C08': dict(level='proof', sections=[], result_ops=['tx'], monitors=['statuses']),
  'C09': dict(level='proof', sections=IDX, result_ops=['query'], monitors=['nodeIdx', 'sessIdx', 'subIdx', 'partitions', 'wellFormed'], uses_generated=True),
  'C10': dict(level='proof', sections=None, result_ops=['*'], monitors=[], uses_generated=True, determinism=True,
              partial='runtime half (goroutine scheduling, map seeds) is differential only: re-executions compared byte for byte incl. app hash'),
